@@ -5,8 +5,8 @@ cd "$(dirname "$0")"
 export GOFLAGS=-mod=mod GOPROXY=off GOSUMDB=off GOTOOLCHAIN=local
 mkdir -p .build out/replays evidence
 fail=0
-# no axioms / admits / switched-off checks anywhere in the development (./check repeats this per property with comments stripped)
-if grep -rnE '\b(Admitted|admit|Axiom|Parameter|Conjecture)\b|Unset Guard|bypass_check|Admit Obligations|type-in-type|impredicative-set' coq --include='*.v' | grep -v '^\S*:[0-9]*:\s*(\*' ; then
+# no axioms / admits / switched-off checks anywhere in the development (comments stripped; ./check repeats this per property)
+if ! ./check --lint; then
   echo "setup: forbidden declaration found" >&2; fail=1
 fi
 # harness build (generated bindings + registry), regeneration of coq/Gen/*.v, coq_makefile
